@@ -194,6 +194,13 @@ def run(ctx):
     Ns = [2, 3, 5, 9] if not ctx.thorough else [1, 2, 3, 4, 5, 7, 9, 12, 16, 24]
     plan = [(2.0, [2, 5, 14]), (1.0, [3, 16])] if not ctx.thorough else [(2.0, [1, 2, 3, 4, 5, 7, 9, 12, 14, 16, 20]), (1.0, [2, 3, 5, 9, 13, 16, 22, 30])]
     recs, kept, skipped = [], [], []
+    # size classes: many parts on a mesh that is not tiny (the owned node ids of a part then spread over a range much larger than
+    # the part), and a third-order type (its boundary group SEG4 is listed after the bulk type); judged by Trace_Partition.tla
+    # like the others, without the per-part assembly
+    large = [("TRI10", 1.0, 8), ("TRI10", 0.7, 7)] + ([("TRI3", 0.3, 48), ("QUAD4", 0.3, 32), ("TRI3", 0.25, 64), ("TRI6", 0.5, 24)] if ctx.thorough else [])
+    for et, h, N in large:
+        ident = f"{et}/N{N}/h{h}/large"
+        recs.append(record(make_parts(N, et, 2, h), ident))
     for et in elems2:
         for h, ns in plan:
             for N in ns:
